@@ -193,7 +193,7 @@ def gen_c16(tier, seed):
         if kind == 1:
             k = r.randint(0, 6)
             which = r.randrange(2)
-            ret = r.choice([1, 7, -5, -12, -110, 2147483647])
+            ret = r.choice([1, 7, -5, -12, -110, 2147483647, -32, -32, -11, -4, -2147483648])   # also the values the library itself gives a meaning to
             sinks = ("c%d:%d" % (k, ret), "c") if which == 0 else ("c", "c%d:%d" % (k, ret))
             meta["fail"] = (which, k, ret)
         elif kind == 2:
